@@ -58,3 +58,16 @@ Lemma src_idle_is_initial d0 ops :
   cls_same d0 (s_cls (src_run (init d0) ops)) /\
   forall ops2, s_ctxs (src_run (init d0) (ops ++ ops2)) = [] -> cls_same d0 (s_cls (src_run (init d0) (ops ++ ops2))).
 Proof. intro E. split; [apply src_restored; exact E | intros ops2; apply src_restored]. Qed.
+
+From TxV Require Import Proofs.UserClsInitProofs.
+
+Lemma src_init_at_most_once d0 ops :
+  let s := src_run (init d0) ops in
+  NoDup (inited (s_log s)) /\ (forall x, In x (inited (s_log s)) -> ~ In x (pend (s_ctxs s))).
+Proof. apply init_at_most_once. Qed.
+
+Lemma src_all_initialised_at_finish d0 ops c rest :
+  let s := src_run (init d0) ops in
+  s_ctxs s = c :: rest -> c_frames c = [] -> (c_phase c = Ending [] \/ c_phase c = Processing) ->
+  forall x, In x (c_objs c) -> In x (inited (s_log s)).
+Proof. apply all_initialised_at_finish. Qed.
